@@ -294,7 +294,8 @@ func c25NewRig(cfg c25Cfg) *c25Rig {
 		r.locs = append(r.locs, loc)
 	}
 	for g := 0; g < cfg.workers; g++ {
-		w := &c25Worker{id: g, src: c25WorkerIP(g)}
+		// direct feeds use a source of their own (never equal to the worker's AdjRIBIn peer address)
+		w := &c25Worker{id: g, src: bnet.IPv4FromOctets(172, 16, 1, uint8(10+g)).Dedup()}
 		for range r.locs {
 			w.direct = append(w.direct, map[int]*route.Path{})
 		}
@@ -399,7 +400,8 @@ func c25OpsString(ops []c25Op) string {
 // c25Path builds a path for variant v announced by source src.
 func c25Path(src *bnet.IP, v int, ebgp bool) *route.Path {
 	if v == 7 {
-		return &route.Path{Type: route.StaticPathType, StaticPath: &route.StaticPath{NextHop: bnet.IPv4FromOctets(172, 18, 0, 1).Dedup()}}
+		// static path; the next hop is the (per worker unique) source, so two workers never install Compare-equal paths
+		return &route.Path{Type: route.StaticPathType, StaticPath: &route.StaticPath{NextHop: src}}
 	}
 	asp := types.NewASPath([]uint32{65100 + uint32(v), 65200})
 	p := &route.Path{
